@@ -13,6 +13,7 @@ from props import _rt
 H = os.path.join(VERIF, "harness")
 
 CORPUS = [("lex", s) for s in ["", "a", "\"", "\\", "\n", "\r", "\t", "\x00", "\x7f", "a\"b\\c\nd\re", "é", "😀", "é", " ", "\\n", "\\u0041", "'"]] + \
+         [("lex", s) for s in ["\u00e9\n", "\u00e9\\", "\U0001F600\"x", "\n\u00e9", "\u041f\u0440\u0438\u0432\u0435\u0442, \"\u043c\u0438\u0440\"!"]] + \
          [("lexdt", s) for s in ["1", "\"\n\\"]] + \
          [("bnode", s) for s in ["a", "a.b", "0a", "a-b", "a·b", "é", "_", "a_b", "a.b.c"]] + \
          [("gbnode", "g1"), ("gname", "http://example.org/g"), ("gname", "http://é.org/ü?q#f")] + \
@@ -22,21 +23,45 @@ CORPUS = [("lex", s) for s in ["", "a", "\"", "\\", "\n", "\r", "\t", "\x00", "\
 
 def esc_harness(n, to):
     return Harness("c03_escape_%d" % n, unwind=2 * n + 3,
-                   unwindset=[(r"^serializer::nt::quoted_string::<", n + 2, "both"), (r"c03_escape::valid_utf8$", n + 2, "loops"),
-                              (r"c03_escape::ArrW as std::io::Write>::write$", n + 2, "loops")],
+                   unwindset=[(r"^serializer::nt::quoted_string::<", n + 2, "both"), (r"c03_common::valid_utf8$", n + 2, "loops"),
+                              (r"c03_common::ArrW as std::io::Write>::write$", n + 2, "loops")],
                    timeout=to, note="every valid UTF-8 string of <= %d bytes through quoted_string; oracle = STRING_LITERAL_QUOTE decoder" % n)
+
+
+def wt_harness(n, to):
+    return Harness("c03_write_term_%d" % n, unwind=2 * n + 12,
+                   unwindset=[(r"^serializer::nt::quoted_string::<", n + 2, "both"), (r"c03_common::valid_utf8$", n + 2, "loops"),
+                              (r"c03_common::ArrW as std::io::Write>::write$", 10, "loops")],
+                   optional_covers=("multi-byte character followed by an escaped one",) if n < 3 else (),
+                   timeout=to, note="every valid UTF-8 lexical form of <= %d bytes through the public write_term (lean literal term); oracle = STRING_LITERAL_QUOTE decoder + framing" % n)
+
+
+def direct_signature_present():
+    import re
+    from engine.overlay import REPO
+    with open(os.path.join(REPO, "turtle/src/serializer/nt.rs")) as f:
+        return re.search(r"pub\(crate\) fn quoted_string<W: io::Write>\(w: &mut W, txt: &\[u8\]\) -> io::Result<\(\)>", f.read()) is not None
 
 
 def kspec(tier):
     cap = 180 if tier == "quick" else 2700
-    hs = [esc_harness(2, cap), esc_harness(3, cap)]
-    if tier == "thorough":
-        hs.append(esc_harness(4, cap))
+    files = [os.path.join(H, "turtle", "c03_common.rs")]
+    hs = []
+    if direct_signature_present():
+        files.append(os.path.join(H, "turtle", "c03_escape.rs"))
+        hs += [esc_harness(2, cap), esc_harness(3, cap)]
+        if tier == "thorough":
+            hs += [esc_harness(4, cap), wt_harness(2, cap), wt_harness(3, cap)]
+        files.append(os.path.join(H, "turtle", "c03_write_term.rs"))
+    else:
+        # quoted_string no longer has the signature the direct harness drives: go through the public write_term only
+        files.append(os.path.join(H, "turtle", "c03_write_term.rs"))
+        hs += [wt_harness(2, 900), wt_harness(3, 1800)]
     return kprop.KSpec(
         package="sophia_turtle", crate_dir="turtle",
-        harness_files={"turtle": [os.path.join(H, "turtle", "c03_escape.rs")]},
+        harness_files={"turtle": files},
         harnesses=hs, jobs=3,
-        encoded=["sophia_turtle::serializer::nt::quoted_string"],
+        encoded=["sophia_turtle::serializer::nt::quoted_string", "sophia_turtle::serializer::nt::write_term (literal arm; thorough tier or when quoted_string changes signature)"],
         bounds=["all valid UTF-8 byte strings of length <= %d" % (3 if tier == "quick" else 4), "output decoded by a transcription of the W3C STRING_LITERAL_QUOTE body (ECHAR, UCHAR)",
                 "unwinding assertions on"],
         outside=["that Rio's lexer inverts the escaping (exercised on witnesses and a corpus in the native replay only)", "strings longer than the bound",
